@@ -141,6 +141,13 @@ def run(prop, seed=0, verbose=True, only=None):
             na.append(v.vid)
             continue
         todo.append((v, (v.vid, v.prop, src, prog.root)))
+    if not only:
+        # whole-package behaviour-preserving transformations: every check must stay silent on them
+        from . import benign
+        for tname in benign.TRANSFORMS:
+            v = Variant("%s-global-%s" % (prop.lower(), tname), prop, "*", "*", "", "", benign=True,
+                        why="whole package: " + tname)
+            todo.append((v, (v.vid, prop, benign.overrides(prog, tname), prog.root)))
     results = {}
     if todo:
         workers = min(16, len(todo))
